@@ -823,10 +823,10 @@ func (c *Ctx) ruleP2() {
 			continue
 		}
 		eachCall(f, func(call ssa.CallInstruction) {
-			if k, ok := c.cachePutKey(call); ok {
+			for _, k := range c.cachePutKeys(call) {
 				puts[k] = append(puts[k], use{f, call.Pos()})
 			}
-			if k, ok := c.cacheGetKey(call); ok {
+			for _, k := range c.cacheGetKeys(call) {
 				gets[k] = append(gets[k], use{f, call.Pos()})
 			}
 		})
@@ -976,6 +976,23 @@ func (c *Ctx) ruleP3() {
 					}
 				}
 			})
+			if put == nil {
+				// the heads persisted after the append may be read from the log rather than
+				// derived from the entry: the first head-persisting Put reachable after it
+				isPutSite := func(in ssa.Instruction) bool {
+					call, ok := in.(ssa.CallInstruction)
+					if !ok {
+						return false
+					}
+					if _, isGo := in.(*ssa.Go); isGo {
+						return false
+					}
+					return c.isSite(kPut, call)
+				}
+				if hit, _ := findPath(f, after(app), nil, isPutSite, nil); hit != nil {
+					put = hit.(ssa.CallInstruction)
+				}
+			}
 			if put == nil {
 				// the head may be persisted by a caller, from what this helper returns
 				for _, g := range c.RepoFns {
